@@ -44,6 +44,12 @@ where
 {
   pub(crate) subscriptions: HashMap<K, Arc<SubscriberList<K, T>>>,
   pub(crate) receiver_count: AtomicUsize,
+  /// Live (neither closed nor dropped) sender handles. Receivers are
+  /// disconnected when the LAST one goes away, not when any one does.
+  pub(crate) sender_count: AtomicUsize,
+  /// Every receiver's mailbox, subscribed or not, so that disconnection reaches
+  /// receivers whatever their subscriptions are at that moment.
+  pub(crate) mailboxes: parking_lot::Mutex<Vec<Weak<mailbox::MailboxProducer<(K, T)>>>>,
 }
 
 impl<K, T> fmt::Debug for SpmcTopicDispatcher<K, T>
@@ -75,6 +81,33 @@ where
     Self {
       subscriptions: HashMap::new(),
       receiver_count: AtomicUsize::new(0),
+      sender_count: AtomicUsize::new(1),
+      mailboxes: parking_lot::Mutex::new(Vec::new()),
+    }
+  }
+
+  /// Records a receiver's mailbox so a later disconnect reaches it. A receiver
+  /// created after every sender is already gone is disconnected right away.
+  pub(crate) fn register_mailbox(&self, mailbox: &Arc<mailbox::MailboxProducer<(K, T)>>) {
+    let mut list = self.mailboxes.lock();
+    list.retain(|w| w.upgrade().is_some());
+    list.push(Arc::downgrade(mailbox));
+    drop(list);
+    if self.sender_count.load(Ordering::Acquire) == 0 {
+      mailbox.disconnect();
+    }
+  }
+
+  /// One sender handle was closed or dropped; the last one disconnects every
+  /// receiver (they drain their mailboxes first, then observe Disconnected).
+  pub(crate) fn release_sender(&self) {
+    if self.sender_count.fetch_sub(1, Ordering::AcqRel) == 1 {
+      let list = self.mailboxes.lock();
+      for mailbox_weak in list.iter() {
+        if let Some(mailbox_strong) = mailbox_weak.upgrade() {
+          mailbox_strong.disconnect();
+        }
+      }
     }
   }
 }
